@@ -215,6 +215,9 @@ class HTMLTranslator(html4css1.HTMLTranslator):
                     if href.startswith(('javascript:', 'data:', 'vbscript:')):
                         return False
                     todo.append(child)
+                elif not isinstance(child, str):
+                    # a comment or a CDATA section is written as it is: no text of the formula is escaped in there
+                    return False
         return True
 
     def visit_math(self, node: nodes.Node) -> None:
